@@ -116,6 +116,15 @@ def negate(e):
     return ast.UnaryOp(ast.Not(), e)
 
 
+def _plain_operand(e):
+    """a name, an attribute chain on a name, or one of those subscripted by a name / constant: evaluating it twice changes nothing"""
+    if isinstance(e, ast.Subscript):
+        return _plain_operand(e.value) and isinstance(e.slice, (ast.Name, ast.Constant))
+    while isinstance(e, ast.Attribute):
+        e = e.value
+    return isinstance(e, ast.Name)
+
+
 def canon(e, sort_comm=True):
     """canonical copy of an expression: a>b -> b<a, a>=b -> b<=a, `not` pushed in, commutative comparisons sorted,
     `len(x) == 0`/`not len(x)`/`not x` left distinct (rules name the forms they accept)."""
@@ -130,6 +139,46 @@ def canon(e, sort_comm=True):
                     return self.visit(m) if isinstance(m, ast.Compare) else m
             if isinstance(n.op, ast.USub) and isinstance(n.operand, ast.Constant) and isinstance(n.operand.value, (int, float)):
                 return ast.Constant(-n.operand.value)
+            return n
+
+        def visit_DictComp(self, n):
+            self.generic_visit(n)
+            # {v: i for i, v in enumerate(X)} == dict(zip(X, range(len(X)))) and {i: v for i, v in enumerate(X)} == dict(zip(range(len(X)), X)), X a plain name
+            if len(n.generators) == 1 and not n.generators[0].ifs and isinstance(n.generators[0].iter, ast.Call) and isinstance(n.generators[0].iter.func, ast.Name) \
+                    and n.generators[0].iter.func.id == 'enumerate' and len(n.generators[0].iter.args) == 1 and not n.generators[0].iter.keywords \
+                    and _plain_operand(n.generators[0].iter.args[0]) and isinstance(n.generators[0].target, ast.Tuple) and len(n.generators[0].target.elts) == 2 \
+                    and all(isinstance(t, ast.Name) for t in n.generators[0].target.elts) and isinstance(n.key, ast.Name) and isinstance(n.value, ast.Name):
+                i_, v_ = [t.id for t in n.generators[0].target.elts]
+                X = n.generators[0].iter.args[0]
+                rng = ast.Call(func=ast.Name(id='range', ctx=ast.Load()), args=[ast.Call(func=ast.Name(id='len', ctx=ast.Load()), args=[X], keywords=[])], keywords=[])
+                if (n.key.id, n.value.id) == (v_, i_) and i_ != v_:
+                    return ast.Call(func=ast.Name(id='dict', ctx=ast.Load()), args=[ast.Call(func=ast.Name(id='zip', ctx=ast.Load()), args=[X, rng], keywords=[])], keywords=[])
+                if (n.key.id, n.value.id) == (i_, v_) and i_ != v_:
+                    return ast.Call(func=ast.Name(id='dict', ctx=ast.Load()), args=[ast.Call(func=ast.Name(id='zip', ctx=ast.Load()), args=[rng, X], keywords=[])], keywords=[])
+            return n
+
+        def visit_IfExp(self, n):
+            self.generic_visit(n)
+            # True if c else False  ==  bool(c)
+            if isinstance(n.body, ast.Constant) and n.body.value is True and isinstance(n.orelse, ast.Constant) and n.orelse.value is False:
+                return ast.Call(func=ast.Name(id='bool', ctx=ast.Load()), args=[n.test], keywords=[])
+            # x if x else y  ==  x or y   (x a plain name: reading it twice changes nothing)
+            if isinstance(n.test, ast.Name) and isinstance(n.body, ast.Name) and n.body.id == n.test.id:
+                return self.visit_BoolOp(ast.BoolOp(op=ast.Or(), values=[n.test, n.orelse]))
+            if isinstance(n.test, ast.Name) and isinstance(n.orelse, ast.Name) and n.orelse.id == n.test.id:
+                return self.visit_BoolOp(ast.BoolOp(op=ast.And(), values=[n.test, n.body]))
+            return n
+
+        def visit_BoolOp(self, n):
+            self.generic_visit(n)
+            # (a and b) and c == a and b and c: same operands evaluated in the same order with the same short-circuit
+            vals = []
+            for v in n.values:
+                if isinstance(v, ast.BoolOp) and type(v.op) is type(n.op):
+                    vals.extend(v.values)
+                else:
+                    vals.append(v)
+            n.values = vals
             return n
 
         def visit_Raise(self, n):
@@ -158,6 +207,11 @@ def canon(e, sort_comm=True):
                 # isinstance(x, (A, B)) == isinstance(x, (B, A))
                 if sort_comm:
                     n.args[1] = ast.Tuple(elts=sorted(n.args[1].elts, key=U), ctx=ast.Load())
+            if isinstance(n.func, ast.Name) and n.func.id == 'dict' and len(n.args) == 1 and not n.keywords and isinstance(n.args[0], ast.Call) and isinstance(n.args[0].func, ast.Name) \
+                    and n.args[0].func.id == 'enumerate' and len(n.args[0].args) == 1 and not n.args[0].keywords and _plain_operand(n.args[0].args[0]):
+                X = n.args[0].args[0]          # dict(enumerate(X)) == dict(zip(range(len(X)), X))
+                rng = ast.Call(func=ast.Name(id='range', ctx=ast.Load()), args=[ast.Call(func=ast.Name(id='len', ctx=ast.Load()), args=[X], keywords=[])], keywords=[])
+                return ast.Call(func=ast.Name(id='dict', ctx=ast.Load()), args=[ast.Call(func=ast.Name(id='zip', ctx=ast.Load()), args=[rng, X], keywords=[])], keywords=[])
             if isinstance(n.func, ast.Name) and n.func.id == 'set' and len(n.args) == 1 and not n.keywords and isinstance(n.args[0], ast.ListComp):
                 return ast.SetComp(elt=n.args[0].elt, generators=n.args[0].generators)       # set([e for ..]) == {e for ..}
             return n
@@ -551,7 +605,154 @@ def _atom_key(e, atom):
         return 'nonempty(%s)' % atom(la[0]), la[1]
     if isinstance(e, ast.Name) and e.id in LIST_NAMES and getattr(e, 'lineno', 1e9) < LIST_NAMES[e.id]:
         return 'nonempty(%s)' % atom(e), True          # the truth value of a builtin list / dict is "not empty"
+    if isinstance(e, ast.Name) and getattr(e, '_container', False):
+        return 'nonempty(%s)' % atom(e), True          # marked by mark_containers: a builtin list / tuple / dict / set at this very position
     return atom(e), True
+
+
+_BUILTIN_CONTAINERS = ('list', 'tuple', 'dict', 'set', 'frozenset')
+
+
+def mark_containers(fn_node):
+    """set `_container = True` on every read of a local name at a position where the name certainly holds a builtin list / tuple / dict / set,
+    so that `not x` and `len(x) == 0` are one atom there. Certain means: the last UNCONDITIONAL (top-level) binding before the read builds
+    such a value (display, comprehension, list()/sorted()/as_list()/dict()/set()/tuple()/as_tuple() call, concatenation, *args / **kwargs
+    parameter), and no binding between it and the read - nor any binding inside a loop that encloses the read - builds anything else; or
+    the read stands in the body of `if isinstance(x, <builtin containers>)` with x not rebound there."""
+    def builds(v, ok):
+        if isinstance(v, (ast.List, ast.ListComp, ast.Dict, ast.DictComp, ast.Set, ast.SetComp, ast.Tuple)):
+            return True
+        if isinstance(v, ast.Call) and isinstance(v.func, ast.Name) and v.func.id in ('list', 'sorted', 'as_list', 'as_tuple', 'dict', 'set', 'tuple', 'frozenset') and not any(isinstance(a, ast.Starred) for a in v.args):
+            return True
+        if isinstance(v, ast.BinOp) and isinstance(v.op, ast.Add):
+            return builds(v.left, ok) and builds(v.right, ok)
+        if isinstance(v, ast.Name):
+            return ok(v)
+        if isinstance(v, ast.IfExp):
+            return builds(v.body, ok) and builds(v.orelse, ok)
+        return False
+    order = {}
+    k = 0
+    def number(n):
+        nonlocal k
+        order[id(n)] = k
+        k += 1
+        for c in ast.iter_child_nodes(n):
+            if not isinstance(c, (ast.expr_context, ast.operator, ast.cmpop, ast.boolop, ast.unaryop)):      # shared singletons
+                number(c)
+    try:
+        number(fn_node)
+    except RecursionError:
+        return 0
+    end_of = {}
+    def last(n):
+        m = order[id(n)]
+        for c in ast.iter_child_nodes(n):
+            if not isinstance(c, (ast.expr_context, ast.operator, ast.cmpop, ast.boolop, ast.unaryop)):
+                m = max(m, last(c))
+        end_of[id(n)] = m
+        return m
+    last(fn_node)
+    a = fn_node.args
+    events = {}      # name -> [(position, builds?, unconditional?, (loop start, loop end) or None)]
+    for x in a.posonlyargs + a.args + a.kwonlyargs:
+        events.setdefault(x.arg, []).append((0, False, True, None))
+    for x, b in ((a.vararg, True), (a.kwarg, True)):
+        if x is not None:
+            events.setdefault(x.arg, []).append((0, b, True, None))
+    top = {id(s) for s in fn_node.body}
+    marked = [0]
+
+    def scan(stmts, loop):
+        for s in stmts:
+            if isinstance(s, (ast.FunctionDef, ast.AsyncFunctionDef, ast.ClassDef)):
+                events.setdefault(s.name, []).append((order[id(s)], False, id(s) in top, loop))
+                continue
+            if isinstance(s, ast.Assign) and len(s.targets) == 1 and isinstance(s.targets[0], ast.Name):
+                events.setdefault(s.targets[0].id, []).append((end_of[id(s)], ('v', s.value), id(s) in top, loop))
+            else:
+                hdr = [s] if not hasattr(s, 'body') else []
+                if isinstance(s, (ast.For, ast.AsyncFor)):
+                    hdr = [s.target]
+                elif isinstance(s, (ast.With, ast.AsyncWith)):
+                    hdr = [i.optional_vars for i in s.items if i.optional_vars is not None]
+                for h in hdr:
+                    for m in ast.walk(h):
+                        if isinstance(m, ast.Name) and isinstance(m.ctx, (ast.Store, ast.Del)):
+                            events.setdefault(m.id, []).append((order[id(m)], False, False, loop))
+                        elif isinstance(m, ast.NamedExpr) and isinstance(m.target, ast.Name):
+                            events.setdefault(m.target.id, []).append((order[id(m)], False, False, loop))
+            for m in ast.walk(s) if not hasattr(s, 'body') else ([s.test] if hasattr(s, 'test') else [getattr(s, 'iter', None)] if hasattr(s, 'iter') else []):
+                for mm in (ast.walk(m) if m is not None else []):
+                    if isinstance(mm, ast.NamedExpr) and isinstance(mm.target, ast.Name):
+                        events.setdefault(mm.target.id, []).append((order[id(mm)], False, False, loop))
+            if isinstance(s, ast.Try):
+                for h in s.handlers:
+                    if h.name:
+                        events.setdefault(h.name, []).append((order[id(h)], False, False, loop))
+                    scan(h.body, loop)
+            inner = (order[id(s)], end_of[id(s)]) if isinstance(s, (ast.For, ast.While, ast.AsyncFor)) else loop
+            for f in ('body', 'orelse', 'finalbody'):
+                v = getattr(s, f, None)
+                if isinstance(v, list) and v and isinstance(v[0], ast.stmt):
+                    scan(v, inner)
+    scan(fn_node.body, None)
+
+    def container_at(name, pos, depth=0):
+        evs = sorted(events.get(name, []), key=lambda e: e[0])
+        if not evs or depth > 4:
+            return False
+        state = False
+        for p, b, uncond, loop in evs:
+            if isinstance(b, tuple):
+                b = builds(b[1], lambda nm, p=p: container_at(nm.id, order[id(nm)], depth + 1))
+            if p < pos:
+                if b and uncond:
+                    state = True
+                elif not b:
+                    state = False
+            elif not b and loop is not None and loop[0] <= pos <= loop[1]:
+                return False          # rebound later in a loop that encloses the read: the next iteration sees it
+        return state
+
+    def guarded(n, pm):
+        """inside the body of `if isinstance(x, (list, ...))` without a rebinding of x in that body"""
+        cur = n
+        while id(cur) in pm:
+            par = pm[id(cur)]
+            if isinstance(par, ast.If) and any(cur is b for b in par.body):
+                for c in conjuncts(par.test):
+                    if isinstance(c, ast.Call) and isinstance(c.func, ast.Name) and c.func.id == 'isinstance' and len(c.args) == 2 and isinstance(c.args[0], ast.Name) and c.args[0].id == n.id:
+                        tps = c.args[1].elts if isinstance(c.args[1], ast.Tuple) else [c.args[1]]
+                        if all(isinstance(t, ast.Name) and t.id in _BUILTIN_CONTAINERS for t in tps):
+                            lo, hi = order[id(par)], end_of[id(par)]
+                            if not any(lo <= p <= hi for p, b, u, l in events.get(n.id, []) if p > 0):
+                                return True
+            cur = par
+        return False
+    pm = {}
+    for n in ast.walk(fn_node):
+        for c in ast.iter_child_nodes(n):
+            pm[id(c)] = n
+    def shadowed(n):
+        """inside a nested def / lambda (evaluated later) or a comprehension that binds the same name"""
+        cur = n
+        while id(cur) in pm:
+            cur = pm[id(cur)]
+            if cur is fn_node:
+                return False
+            if isinstance(cur, (ast.FunctionDef, ast.AsyncFunctionDef, ast.Lambda, ast.ClassDef)):
+                return True
+            if isinstance(cur, (ast.ListComp, ast.SetComp, ast.DictComp, ast.GeneratorExp)):
+                if any(isinstance(m, ast.Name) and m.id == n.id for g in cur.generators for m in ast.walk(g.target)):
+                    return True
+        return False
+    for n in ast.walk(fn_node):
+        if isinstance(n, ast.Name) and isinstance(n.ctx, ast.Load) and n.id in events and not shadowed(n):
+            if container_at(n.id, order[id(n)]) or guarded(n, pm):
+                n._container = True
+                marked[0] += 1
+    return marked[0]
 
 
 def container_names(fn_node):
